@@ -93,6 +93,10 @@ def stepC15 (ds : DState) (line : String) : DState × String :=
   | ["new", n] => match n.toNat? with
       | some k => ({ n := k, cands := [{ d0 := init, d1 := init, memo := .nil }], where_ := [] }, "ok 1")
       | none => (ds, "bad-op")
+  | ["nq", "call", t, e, "r", cap] => match t.toNat?, e.toNat?, cap.toNat? with
+      | some t, some e, some cap =>
+          answer { ds with where_ := setWhere t (1 - e) false } (startIn ds t (1 - e) (.read cap) false) "thread-busy"
+      | _, _, _ => (ds, "bad-op")
   | ["call", t, e, "r", cap] => match t.toNat?, e.toNat?, cap.toNat? with
       | some t, some e, some cap =>
           answer { ds with where_ := setWhere t (1 - e) false } (startIn ds t (1 - e) (.read cap)) "thread-busy"
